@@ -136,9 +136,15 @@ def apply_recipe(q, cmds):
     return n
 
 
+_CAL_CALLS = [0]
+
+
 def calibrate_all(q, data, previous=None):
     cr = previous
+    _CAL_CALLS[0] += 1
     for sig, samples in data.items():
+        if _CAL_CALLS[0] % 4 == 0:
+            samples = (x for x in list(samples))   # every fourth session hands the dataset over as a one-shot generator
         if len(data) == 1 and sig != "serving_default":
             # a model with a single signature may be calibrated without naming it (documented default), whatever its key
             cr = q.calibrate(samples, previous_calibration_result=cr)
